@@ -235,12 +235,14 @@ func TestVerifC06IndexWriter(t *testing.T) {
 		req, _ := http.NewRequest("GET", srv.URL+path, nil)
 		req.Header.Set("Authorization", "Bearer "+token)
 		status, term, blen := 0, false, 0
+		rawOK := false // the raw request itself worked (no transport error or timeout of the harness's own GET)
 		hc := &http.Client{Timeout: 30 * time.Second}
 		if resp, err := hc.Do(req); err == nil {
 			body, rerr := io.ReadAll(resp.Body)
 			resp.Body.Close()
 			status = resp.StatusCode
 			blen = len(body)
+			rawOK = rerr == nil
 			term = rerr == nil && (string(body) == "\n" || strings.HasSuffix(string(body), "\n\n"))
 		}
 		// reader 1: arvados.KeepService
@@ -266,6 +268,14 @@ func TestVerifC06IndexWriter(t *testing.T) {
 		}
 		tw.Write(map[string]interface{}{"ev": "reset", "scn": s.ID, "part": "framing", "rdr": "handler", "shape": [][]int{},
 			"cut": 0, "n": 1, "path": path, "dir": s.Dir, "nvols": len(s.Vols), "failvol": s.FailVol, "failat": s.FailAt})
+		if !rawOK {
+			// nothing is known about the response the handler produced: no event to judge
+			vm.Close()
+			if s.Dir {
+				os.RemoveAll(sdir)
+			}
+			continue
+		}
 		tw.Write(map[string]interface{}{"ev": "write", "failed": failed, "status": status, "term": term, "len": blen,
 			"e1": err1 != nil, "e2": err2 != nil})
 		vm.Close()
